@@ -16,3 +16,5 @@ def run(chk):
     F.rule_read_bypass_implies_write_bypass(chk, ev, ea, "C05.4")
     F.rule_backend_refuses_errors(chk, chk.repo, "C05.5")
     F.rule_filed_under_canonical_text(chk, ev, chk.repo, "C05.6")
+    F.rule_data_presence_witness(chk, chk.repo, "C05.7")
+    F.rule_memory_copy(chk, chk.repo, "C05.8")
